@@ -353,6 +353,24 @@ func (m *monC02) Final(h *History) []Violation {
 		return nil
 	}
 	last := h.Steps[len(h.Steps)-1].Post
+	// the last block that was processed had something due for an auction and left that auction
+	// exactly as it was: what its escrows hold is not paid when it is due (and, if nothing else
+	// touches the auction, never)
+	if !h.Halted {
+		for k := len(h.Steps) - 1; k >= 0; k-- {
+			st := h.Steps[k]
+			if st.Op.Kind != OpBlock || !st.Res.OK {
+				continue
+			}
+			for _, a := range st.Pre.Auctions {
+				if dueInBlock(st.Pre, a, st.Now) && st.Pre.AuctionCanon(a.ID) == st.Post.AuctionCanon(a.ID) {
+					vs = append(vs, viol("C02/never-settled", "the block at %s left auction %d (%s, start %s, current end %s) untouched although it had something due: the coins in its escrows are not paid out", tfmt(st.Now), a.ID, a.Status, tfmt(a.Start), tfmt(a.LastEnd())))
+					break
+				}
+			}
+			break
+		}
+	}
 	for _, d := range AllDenoms {
 		grown := bsub(last.PoolOf(d), zeroIfNil(m.pool0[d]))
 		fees := zeroIfNil(h.Fees[d])
